@@ -36,6 +36,7 @@ type c12El struct {
 	A  int    `json:"a"`
 	Pg int    `json:"pg"`
 	N  int    `json:"n"`
+	T  int    `json:"t,omitempty"` // text class: elements with the same t > 0 show the same text
 }
 
 type c12Exp struct {
@@ -276,14 +277,20 @@ type c12Rendered struct {
 	first   []int // first unit per element (1-based), 0 if none
 	total   int
 	titleEl map[string]int // heading text -> element index (1-based)
+	// repeated texts: heads[text] = every heading element with that text; shared[g] =
+	// the units (in document order) whose text is the token of unit g
+	heads   map[string][]int
+	shared  map[int][]int
+	classOf map[string]int // text -> text class (t > 0) of the elements that show it
 	unitEl  []int          // unit -> element index (1-based); unitEl[0] unused
 }
 
 func c12Render(c *c12Case, max, min int, mode string, api ...string) *c12Rendered {
 	forLayout := len(api) > 0 && api[0] == "layout"
-	r := &c12Rendered{titleEl: map[string]int{}, unitEl: []int{0}}
+	r := &c12Rendered{titleEl: map[string]int{}, unitEl: []int{0}, heads: map[string][]int{}, shared: map[int][]int{}, classOf: map[string]int{}}
 	r.n = make([]int, len(c.Doc))
 	r.before = make([]int, len(c.Doc))
+	classRoot := map[int]int{} // text class -> unit whose token is the shared text
 	r.first = make([]int, len(c.Doc))
 	pages := map[int]*model.Page{}
 	var order []*model.Page
@@ -300,6 +307,8 @@ func c12Render(c *c12Case, max, min int, mode string, api ...string) *c12Rendere
 		p := pages[e.Pg]
 		n, pad := 0, 0
 		switch e.K {
+		case "G", "R":
+			n = 1
 		case "H":
 			n = 1
 			if e.N == 0 { // hollow: white space only
@@ -336,11 +345,37 @@ func c12Render(c *c12Case, max, min int, mode string, api ...string) *c12Rendere
 		ypos[e.Pg] += 30
 		bbox := model.BBox{X: 72, Y: y, Width: 400, Height: 20}
 		switch e.K {
+		case "G", "R":
+			// G: a heading given as a Paragraph element whose text is listed in
+			// Layout.Headings of its page (a "heading-like paragraph"); R: a plain
+			// paragraph.  Elements of one text class (t > 0) show the same text.
+			root := g
+			if e.T > 0 {
+				if cr, ok := classRoot[e.T]; ok {
+					root = cr
+				} else {
+					classRoot[e.T] = g
+				}
+				r.shared[root] = append(r.shared[root], g)
+			}
+			txt := c12Tok(root)
+			if e.T > 0 {
+				r.classOf[txt] = e.T
+			}
+			p.Elements = append(p.Elements, &model.Paragraph{Text: txt, BBox: bbox, FontSize: 11})
+			if e.K == "G" {
+				r.titleEl[txt] = i + 1
+				r.heads[txt] = append(r.heads[txt], i+1)
+				p.Layout.Headings = append(p.Layout.Headings, model.HeadingInfo{Level: e.A, Text: txt, BBox: bbox, FontSize: 20, Confidence: 1})
+			} else {
+				p.Layout.Paragraphs = append(p.Layout.Paragraphs, model.ParagraphInfo{Index: len(p.Layout.Paragraphs), Text: txt, BBox: bbox, FontSize: 11})
+			}
 		case "H":
 			txt := []string{"", "   "}[i%2] // hollow: a heading of white space
 			if n > 0 {
 				txt = toks[0] // every content word is a tracked unit: the title is the token
 				r.titleEl[txt] = i + 1
+				r.heads[txt] = append(r.heads[txt], i+1)
 			}
 			p.Elements = append(p.Elements, &model.Heading{Text: txt, Level: e.A, BBox: bbox, FontSize: 20})
 			if n > 0 || forLayout {
@@ -467,8 +502,18 @@ func c12Project(chunks []*rag.Chunk, r *c12Rendered, api string) []c12Obs {
 	}
 	all := sb.String()
 	textUnits := make([][]int, len(chunks))
+	occ := map[int]int{}
 	for _, m := range c12TokRe.FindAllStringIndex(all, -1) {
 		g, _ := strconv.Atoi(all[m[0]+1 : m[1]])
+		if us := r.shared[g]; len(us) > 0 {
+			// a text that several elements show: its k-th occurrence is the k-th of them
+			k := occ[g]
+			occ[g]++
+			if k >= len(us) {
+				k = len(us) - 1
+			}
+			g = us[k]
+		}
 		ci := sort.Search(len(starts), func(k int) bool { return starts[k] > m[0] }) - 1
 		if ci >= 0 {
 			textUnits[ci] = append(textUnits[ci], g)
@@ -479,9 +524,9 @@ func c12Project(chunks []*rag.Chunk, r *c12Rendered, api string) []c12Obs {
 		o := c12Obs{Index: ch.Metadata.ChunkIndex, ID: ch.ID, Ps: ch.Metadata.PageStart, Pe: ch.Metadata.PageEnd,
 			Total: ch.Metadata.TotalChunks, Path: []int{}, Units: []int{}, Title: -1}
 		if len(ch.Metadata.SectionPath) > 0 && strings.TrimSpace(ch.Metadata.SectionTitle) != "" {
-			o.Title = r.titleEl[ch.Metadata.SectionTitle]
+			o.Title = r.titleOf(ch.Metadata.SectionTitle)
 			if twc := ch.TextWithContext; strings.HasPrefix(twc, "[") {
-				if end := strings.Index(twc, "]\n\n"); end < 0 || r.titleEl[twc[1:end]] != o.Title {
+				if end := strings.Index(twc, "]\n\n"); end < 0 || r.titleOf(twc[1:end]) != o.Title {
 					o.Title = 0 // the context line names something else than the section title
 				}
 			}
@@ -491,8 +536,8 @@ func c12Project(chunks []*rag.Chunk, r *c12Rendered, api string) []c12Obs {
 				o.Path = append(o.Path, -1) // a heading without text (hollow)
 				continue
 			}
-			o.Path = append(o.Path, r.titleEl[t]) // 0 = not a heading of this document
-			if r.titleEl[t] == 0 {
+			o.Path = append(o.Path, r.titleOf(t)) // 0 = not a heading of this document
+			if r.titleOf(t) == 0 {
 				o.Titles = append(o.Titles, t)
 			}
 		}
@@ -537,6 +582,16 @@ func c12Project(chunks []*rag.Chunk, r *c12Rendered, api string) []c12Obs {
 	return obs
 }
 
+// titleOf: the heading element a title names; a text that several elements share
+// cannot name one of them: it is reported as -(100 + its text class), like NormPath
+// of Chunking.tla does for the expected path.
+func (r *c12Rendered) titleOf(t string) int {
+	if cl := r.classOf[t]; cl > 0 {
+		return -(100 + cl)
+	}
+	return r.titleEl[t]
+}
+
 func c12Runs(units []int) [][2]int {
 	var rs [][2]int
 	for _, u := range units {
@@ -555,7 +610,7 @@ func c12Runs(units []int) [][2]int {
 func c12Events(c *c12Case, r *c12Rendered, obs []c12Obs, cfg c12Cfg, mode string) []Event {
 	els := make([]map[string]interface{}, len(c.Doc))
 	for i, e := range c.Doc {
-		els[i] = map[string]interface{}{"k": e.K, "a": e.A, "pg": e.Pg, "n": r.n[i]}
+		els[i] = map[string]interface{}{"k": e.K, "a": e.A, "pg": e.Pg, "n": r.n[i], "t": e.T}
 	}
 	minor := 7
 	if cfg.api == "layout" {
@@ -750,6 +805,9 @@ func c12Norm(c *c12Case, path []int) []int {
 		out[i] = h
 		if h >= 1 && h <= len(c.Doc) && c.Doc[h-1].K == "H" && c.Doc[h-1].N == 0 {
 			out[i] = -1
+		}
+		if h >= 1 && h <= len(c.Doc) && c.Doc[h-1].T > 0 {
+			out[i] = -(100 + c.Doc[h-1].T)
 		}
 	}
 	return out
